@@ -660,7 +660,9 @@ class TransverselyIsotropic(_Elastic):
 
         kt = self.kt
 
-        dtype = object if isinstance(kt, np.ndarray) else float
+        # heterogeneous as soon as one parameter is a field (kt does not depend on Gl)
+        sum = El + Et + Gl + vl + vt
+        dtype = object if isinstance(sum, np.ndarray) else float
 
         # Kelvin-Mandel compliance and stiffness matrices in the material's coordinate system.
         # L = (1, 0, 0)
